@@ -38,6 +38,7 @@ COMPAT = z3.Function("Compat", TyS, TyS, sym.B)
 SHAPE = z3.Function("SameShapeW", TyS, TyS, sym.B)
 INPUT = z3.Function("InputTy", TyS, sym.B)
 OUTPUT = z3.Function("OutputTy", TyS, sym.B)
+NAMEDOF = z3.Function("NamedOf", TyS, TyS)      # the named type under the wrappers (spec: "unwrapped")
 
 
 class VTy(V):
@@ -134,6 +135,11 @@ def def_input(a):
                                    tkind(a) == K["INPUT_OBJECT"]))
 
 
+def def_namedof(a):
+    return z3.And(NAMEDOF(a) == z3.If(z3.Or(nn(a), lst(a)), NAMEDOF(of_type(a)), a),
+                  named(NAMEDOF(a)))      # by induction on the rank (A7: wrappers are well founded)
+
+
 def def_output(a):
     return OUTPUT(a) == z3.If(z3.Or(nn(a), lst(a)), OUTPUT(of_type(a)),
                               z3.And(named(a), tkind(a) != K["INPUT_OBJECT"]))
@@ -186,6 +192,8 @@ class TypesTheory:
                 new.append(def_input(*args))
             elif name == "OutputTy":
                 new.append(def_output(*args))
+            elif name == "NamedOf":
+                new.append(def_namedof(*args))
             elif name in ("tkind", "of_type"):
                 new.append(wf(args[0]))
                 if name == "of_type":
@@ -213,7 +221,7 @@ class TypesTheory:
             if not z3.is_app(e):
                 continue
             nm = e.decl().name()
-            if nm in ("EqT", "Sub", "Compat", "SameShapeW", "InputTy", "OutputTy", "tkind",
+            if nm in ("EqT", "Sub", "Compat", "SameShapeW", "InputTy", "OutputTy", "NamedOf", "tkind",
                       "of_type") and not _has_var(e):
                 work.append((nm, e.children(), depth))
             stack.extend(e.children())
@@ -228,6 +236,9 @@ def lemmas():
     out.append(("EqT_refl_step", z3.Implies(z3.And(wf(a), def_eqt(a, a), z3.Implies(z3.Or(nn(a), lst(a)), EQT(oa, oa))), EQT(a, a))))
     out.append(("Sub_refl_step", z3.Implies(z3.And(wf(a), wf(oa), def_sub(s, a, a), z3.Implies(z3.Or(nn(a), lst(a)), SUB(s, oa, oa))), SUB(s, a, a))))
     out.append(("Compat_refl_step", z3.Implies(z3.And(wf(a), def_compat(a, a), z3.Implies(z3.Or(nn(a), lst(a)), COMPAT(oa, oa))), COMPAT(a, a))))
+    out.append(("NamedOf_named_step", z3.Implies(
+        z3.And(wf(a), NAMEDOF(a) == z3.If(z3.Or(nn(a), lst(a)), NAMEDOF(oa), a),
+               z3.Implies(z3.Or(nn(a), lst(a)), named(NAMEDOF(oa)))), named(NAMEDOF(a)))))
     out.append(("SameShapeW_refl_step", z3.Implies(z3.And(wf(a), def_shape(a, a), z3.Implies(z3.Or(nn(a), lst(a)), SHAPE(oa, oa))), SHAPE(a, a))))
     return out
 
@@ -387,6 +398,21 @@ def install(w):
             return VBool(z3.And(*conds, fn(*[x.t for x in a])) if conds else fn(*[x.t for x in a]))
         return h
 
+    def f_named_of(it, t):
+        x = t.val if hasattr(t, "is_none") else t
+        if not isinstance(x, VTy):          # None: no type (clauses guard this case themselves)
+            return VTy(z3.Const(it.namer.fresh("no_type"), TyS))
+        return VTy(NAMEDOF(x.t))
+
+    def f_opt_is(it, o, t):
+        """an Optional[type] value is (not None and) the given type object"""
+        from pyvc.codec import VOpt
+        if isinstance(o, VOpt) and isinstance(o.val, VTy) and isinstance(t, VTy):
+            return VBool(z3.And(z3.Not(o.is_none), o.val.t == t.t))
+        if isinstance(o, VTy) and isinstance(t, VTy):
+            return VBool(o.t == t.t)
+        return VBool(False)
+
     def f_kind_is(it, t, name):
         from pyvc.codec import VOpt
         if isinstance(t, VOpt) and isinstance(t.val, VTy):
@@ -400,6 +426,7 @@ def install(w):
         "NonNull": p(nn), "ListTy": p(lst), "NamedTy": p(named), "LeafTy": p(leaf),
         "possible": p(possible),
         "of": lambda it, t: VTy(of_type(t.t)),
+        "NamedOf": f_named_of, "opt_is": f_opt_is,
         "ty_rank": lambda it, t: VInt(rank(t.t)),
         "kind_is": f_kind_is,
         "abstract_ty": p(lambda t: z3.Or(tkind(t) == K["INTERFACE"], tkind(t) == K["UNION"])),
